@@ -1,6 +1,7 @@
 package main
 
 import (
+	"encoding/json"
 	"bytes"
 	"context"
 	"fmt"
@@ -149,6 +150,9 @@ func serverProbe(h http.Handler, position, verb, target string, hdr map[string]s
 		violation("C04/http/server/"+position+"/"+kind, fmt.Sprintf("%s %s answered %d: %s", verb, target, rec.Code, clipS(rec.Body.String())), cs)
 	case strings.Contains(rec.Body.String(), "goroutine "):
 		violation("C04/http/server/"+position+"/stack-trace", "response carries a stack trace", cs)
+	case position == "body" && !json.Valid(body) && (ran || rec.Code < 400):
+		// an independent strict parser (encoding/json) says the body is not one JSON document: a malformed request
+		violation("C04/http/server/body/malformed-body-accepted", fmt.Sprintf("%s %s with a body that is not a JSON document was answered %d (resource invoked: %v): %s", verb, target, rec.Code, ran, clipS(string(body))), cs)
 	case ran && (rec.Code < 200 || rec.Code > 299):
 		violation("C04/http/server/"+position+"/resource-invoked-for-rejected-request", fmt.Sprintf("resource code ran although the answer is %d", rec.Code), cs)
 	default:
